@@ -106,11 +106,15 @@ def run_unit(unit_name, canary=None, extra=(), suffix='', timeout=int(os.environ
         spans = _spans(d, lo, text_lines, os.path.basename(path))
         res['failures'].append({'message': msg, 'kind': 'verification' if VERIF_FAIL.search(msg) else 'other',
                                 'spans': spans})
+    res['lost_anchors'] = [a for i in built['functions'].values() for a in i.get('lost_anchors', [])]
     real = [f for f in res['failures'] if f['kind'] == 'verification']
     other = [f for f in res['failures'] if f['kind'] == 'other']
     if other:
         res['status'] = 'undecided'
         res['reason'] = 'unclassified verus error: ' + other[0]['message'][:200]
+    elif real and res['lost_anchors']:
+        res['status'] = 'undecided'
+        res['reason'] = 'proof hints lost their anchors (%s) and the proof no longer goes through; cannot tell a broken property from a lost hint' % '; '.join(res['lost_anchors'])[:600]
     elif real:
         res['status'] = 'failed'
     elif rlimit_hit:
